@@ -4,6 +4,7 @@ import ast
 from ..core import AnalysisError, src, qualname_of
 from ..pysym import SymExec, show, subterms, all_calls, terms_of
 from ..rules_pyx import N, C, A
+from .. import logic
 from .. import rules_pyx as rp
 from .. import rules_cxx as rc
 from .. import pyx
@@ -44,29 +45,31 @@ def r_validation(repo, rep, R='R11.1'):
     w = '%s:%s _type_check' % (REL, tcf.lineno)
     pdoc, pscores, pcats = [a.arg for a in tcf.args.args][:3]
 
-    def ne(a, b):
-        return {show(('cmp', '!=', a, b)), show(('cmp', '!=', b, a))}
-
-    def atoms(t):
-        out = set()
-        for s_ in subterms(t):
-            if s_[0] == 'cmp':
-                out.add(show(s_))
-        return out
-    classes = {'kind': False, 'tags': False, 'shape': False}
+    # acceptance form: a path that returns normally has established every admission condition (however the tests
+    # are spelt); each rejection is an exception
+    classes = {'kind': True, 'tags': True, 'shape': True}
+    seen = {'kind': 0, 'tags': 0, 'shape': 0}
     n_raise = 0
     every_sentence = False
+    ln = lambda x: ('call', N('len'), (x,), ())
+    eq = lambda a_, b_: logic.formula(('cmp', '==', a_, b_))
     for st, o in SymExec(tcf, unroll=1).run():
-        if o != 'raise':
+        if o == 'raise':
+            n_raise += 1
             continue
-        n_raise += 1
-        last = [(e[1], e[2]) for e in st.events if e[0] == 'branch'][-1]
-        if not last[1]:
+        if o != 'return':
             continue
-        a = atoms(last[0])
-        ln = lambda x: ('call', N('len'), (x,), ())
-        if a & ne(ln(N(pdoc)), ln(N(pscores))) and any(' != ' in x and 'isinstance' in x for x in a):
-            classes['kind'] = True
+        conds = [(c, p_) for c, p_, _ in st.conds]
+        # kind: both arguments are batches or both are single items, and batches have equal length
+        kinds = [c for c, _ in conds if c[0] == 'cmp' and c[1] in ('==', '!=') and c[2][0] == 'bool' and c[3][0] == 'bool']
+        okk = False
+        for c in kinds:
+            ms = c[2] if N(pdoc) in set(subterms(c[2])) else c[3]
+            same = logic.formula(('cmp', '==', c[2], c[3]))
+            want = ('and', (same, ('or', (logic.neg(logic.formula(ms)), eq(ln(N(pdoc)), ln(N(pscores)))))))
+            okk = okk or logic.implied(conds, want)
+        seen['kind'] += 1
+        classes['kind'] = classes['kind'] and okk
         loop = [e for e in st.events if e[0] == 'loop-enter']
         if loop:
             it = loop[0][1]
@@ -77,16 +80,17 @@ def r_validation(repo, rep, R='R11.1'):
             dep = ('unpack', ('unpack', elem, 1), 1)
             ntags = ln(N(pcats))
             ntok = ln(tokens)
-            if a & ne(ntags, ('sub', A(tag, 'shape'), C(1))) and len(a) == 1:
-                classes['tags'] = True
+            seen['tags'] += 1
+            seen['shape'] += 1
+            classes['tags'] = classes['tags'] and logic.implied(conds, eq(ntags, ('sub', A(tag, 'shape'), C(1))))
             exp_tag = ('tuple', (ntok, ntags))
             exp_dep = ('tuple', (ntok, ('binop', '+', ntok, C(1))))
-            if a & ne(exp_tag, A(tag, 'shape')) and a & ne(exp_dep, A(dep, 'shape')) and last[0][0] == 'bool' and last[0][1] == 'or':
-                classes['shape'] = True
+            classes['shape'] = classes['shape'] and logic.implied(conds, ('and', (eq(exp_tag, A(tag, 'shape')), eq(exp_dep, A(dep, 'shape')))))
     for name, ok in classes.items():
         what = {'kind': 'a document/score pair of different kinds or lengths', 'tags': 'a tag matrix whose width is not len(categories)',
                 'shape': 'score matrices that are not (tokens x tags) and (tokens x tokens+1)'}[name]
-        rep.check(ok, R, w, '_type_check:reject:' + name, '%s is rejected with an exception' % what, 'no raising path rejects %s' % what)
+        rep.check(ok and seen[name] > 0, R, w, '_type_check:reject:' + name, '%s is rejected with an exception' % what,
+                  'a path returns normally without having excluded %s' % what)
     rep.check(n_raise >= 3, R, w, '_type_check:raises', 'each rejection raises (%d raising paths)' % n_raise, 'found %d raising paths' % n_raise)
     rep.check(every_sentence, R, w, '_type_check:all-sentences', 'every sentence of the batch is validated against its own scores', 'validation does not iterate zip(doc, score_results)')
 
